@@ -248,3 +248,28 @@ package interp
 //@   opt opaque-havoc = none
 //@   requires [assume] rt != nil && i >= 1
 //@   ensures wrapper-method-i-is-looked-up-in-the-complete-method-set: match == (old(match) && has(lm, substr(rt.Field(i).Name, 1, len(rt.Field(i).Name))))
+
+// The three cancellable entry points switch the interpreter to cancellable channel operations (unless
+// YAEGI_FAST_CHAN opted out) before the program is compiled or run: recv, recv2 and send choose their
+// done-racing variant from this flag when the closures are generated.
+//@ func (interp *Interpreter) EvalWithContext(ctx, src) (res, err)
+//@   props C09
+//@   opt safety = off
+//@   opt opaque-calls = *
+//@   opt opaque-havoc = none
+//@   requires [assume] interp != nil
+//@   ensures blocking-operations-are-cancellable: interp.cancelChan == !interp.opt.fastChan
+//@ func (interp *Interpreter) EvalPathWithContext(ctx, path) (res, err)
+//@   props C09
+//@   opt safety = off
+//@   opt opaque-calls = *
+//@   opt opaque-havoc = none
+//@   requires [assume] interp != nil
+//@   ensures blocking-operations-are-cancellable: interp.cancelChan == !interp.opt.fastChan
+//@ func (interp *Interpreter) ExecuteWithContext(ctx, p) (res, err)
+//@   props C09
+//@   opt safety = off
+//@   opt opaque-calls = *
+//@   opt opaque-havoc = none
+//@   requires [assume] interp != nil
+//@   ensures blocking-operations-are-cancellable: interp.cancelChan == !interp.opt.fastChan
